@@ -953,6 +953,10 @@ def run(tier: str, replay: str | None = None):
         else:
             failing.append(({"sig": [], "raw": [], "def": "def g(a, b)", "call": "g(**{...})", "display": dup_bad[0]["display"]}, str(dup_bad[0]["observed"]), "the last pair of a dict display wins for a repeated key"))
 
+    # 5e. default values of every kind (round 4): the default's VALUE is an input dimension
+    dk_fail, dk_stats = run_default_kinds(thorough)
+    failing += dk_fail
+
     # 6. verdicts
     for payload, obs, exp in failing[:10]:
         rep.violation({"kind": "failing-input", "input": payload, "observed": obs, "expected": exp, "how_to_run": "./check C05 --replay <this file>", "oracle": "CPython executes the call"})
@@ -982,7 +986,7 @@ def run(tier: str, replay: str | None = None):
         rep.harness_error("specification PyBind.py_bind_full disagrees with CPython on " + json.dumps(sb))
 
     rep.coverage.update(
-        evaluations=len(cases) + n_e2e + n_validity + len(kind_cases) + n_union,
+        evaluations=len(cases) + n_e2e + n_validity + len(kind_cases) + n_union + dk_stats["calls"],
         distinct_nontrivial=len(distinct),
         rule="a case = (def signature, call shape); signatures: every def-expressible signature with <=3 parameters (all kinds x default patterns), a sample (thorough: all) with 4, random ones up to 6; "
         "call shapes: positional section of plain positionals / tuple displays / unknown-length *xs, keyword section of keywords (parameter names and strangers) / dict displays / unknown **kw, "
@@ -1003,6 +1007,10 @@ def run(tier: str, replay: str | None = None):
         callable_kind_calls=len(kind_cases),
         callable_kind_other_codes=kind_other,
         partial_calls_never_checked=n_partial_unchecked,
+        default_kind_functions=dk_stats["functions"],
+        default_kind_calls=dk_stats["calls"],
+        default_kind_accepted=dk_stats["accepted"],
+        default_kind_other_codes=dk_stats["other_codes"],
         union_of_mappings_calls=n_union,
         union_of_mappings_accepted=n_union_acc,
         exhaustive=False,
@@ -1305,3 +1313,157 @@ def run_union_modules(cases, batch=200):
                 v[i] = False
         verdicts += v
     return verdicts
+
+
+# ---------------------------------------------------------------------------
+# round 4: the VALUE of a default is an input dimension (signatures come from runtime objects)
+
+DEFAULT_PRELUDE = '''
+import enum, math, functools, inspect, collections, fractions, decimal
+from unittest import mock
+class AlwaysEq:
+    def __eq__(self, other): return True
+    def __ne__(self, other): return False
+    __hash__ = object.__hash__
+class NeverEq:
+    def __eq__(self, other): return False
+    def __ne__(self, other): return True
+    __hash__ = object.__hash__
+class RaisingEq:
+    def __eq__(self, other): raise ValueError("no comparison")
+    __hash__ = object.__hash__
+class RaisingBool:
+    def __bool__(self): raise ValueError("no truth value")
+class ListEq:
+    """numpy-like: == returns a non-bool"""
+    def __eq__(self, other): return [True, False]
+    __hash__ = object.__hash__
+class NoHash:
+    __hash__ = None
+class Color(enum.Enum):
+    RED = 1
+class Flag(enum.IntFlag):
+    A = 1
+SENTINEL = object()
+def helper(): pass
+class Plain: pass
+NT = collections.namedtuple("NT", "x")
+'''
+DEFAULT_EXPRS = [
+    "None", "0", "-1", "True", "1.5", "math.nan", "math.inf", "1j", "''", "'s'", "b'b'", "()", "(1, 2)", "[]", "[1]", "{}", "{'k': 1}",
+    "set()", "frozenset()", "helper", "len", "lambda: 0", "Plain", "Plain()", "int", "SENTINEL", "Ellipsis", "NotImplemented",
+    "Color.RED", "Flag.A", "mock.ANY", "mock.sentinel.x", "AlwaysEq()", "NeverEq()", "RaisingEq()", "RaisingBool()", "ListEq()", "NoHash()",
+    "NT(1)", "fractions.Fraction(1, 2)", "decimal.Decimal('1')", "range(3)", "functools.partial(helper)", "inspect.Parameter.POSITIONAL_ONLY", "type",
+]
+# header templates ({D} = default expression) with the number of parameters that may be omitted
+DEFAULT_SHAPES = [
+    ("a, b={D}", "pok"),
+    ("a, b={D}, /", "posonly"),
+    ("a, *, b={D}", "kwonly"),
+    ("a, b=0, c={D}", "after_default"),
+    ("a={D}, *r, k={D}", "two_and_varargs"),
+]
+DEFAULT_CALLS = ["(1)", "(1, 2)", "(1, b=2)", "()", "(1, 2, 3, 4)", "(a=1)", "(*(1,))", "(**{'a': 1})"]
+
+
+def default_kind_cases(thorough):
+    cases = []
+    for di, d in enumerate(DEFAULT_EXPRS):
+        for hi, (h, _) in enumerate(DEFAULT_SHAPES):
+            for wrapper in ("def", "method", "init") if (thorough or (di + hi) % 3 == 0) else ("def",):
+                cases.append((d, h.replace("{D}", d), wrapper))
+    return cases
+
+
+def run_default_kinds(thorough=False):
+    """-> (failures, stats).  Each function is defined in a module with the default object as a
+    RUNTIME value; pyanalyze analyses the module (signature through arg_spec), CPython executes
+    the same calls."""
+    import contextlib
+    import io
+
+    from pyanalyze.error_code import ErrorCode
+    from pyanalyze.test_name_check_visitor import TestNameCheckVisitorBase
+
+    cases = default_kind_cases(thorough)
+    failures = []
+    stats = {"functions": len(cases), "calls": 0, "accepted": 0, "other_codes": {}}
+    for b0 in range(0, len(cases), 60):
+        chunk = cases[b0 : b0 + 60]
+        lines = DEFAULT_PRELUDE.strip("\n").split("\n")
+        callees = []
+        for i, (d, h, wrapper) in enumerate(chunk):
+            if wrapper == "def":
+                lines.append(f"def f{i}({h}): return 0")
+                callees.append(f"f{i}")
+            elif wrapper == "method":
+                lines += [f"class M{i}:", f"    def m(self, {h}): return 0"]
+                callees.append(f"M{i}().m")
+            else:
+                lines += [f"class K{i}:", f"    def __init__(self, {h}): pass"]
+                callees.append(f"K{i}")
+        ndefs = len(lines)
+        lines.append("def run():")
+        call_line = {}
+        for i in range(len(chunk)):
+            for c in DEFAULT_CALLS:
+                lines.append(f"    {callees[i]}{c}")
+                call_line[len(lines)] = (i, c)
+        code = "\n".join(lines) + "\n"
+        buf = io.StringIO()
+        crashed = None
+        try:
+            with contextlib.redirect_stderr(buf), contextlib.redirect_stdout(buf):
+                errs = TestNameCheckVisitorBase()._run_str(code, fail_after_first=False)
+        except Exception as ex:  # the checker itself failed on some default value
+            crashed = repr(ex)[:300]
+            errs = []
+        if crashed:
+            failures.append(({"defaults": sorted({d for d, _, _ in chunk}), "def": "module with default values of every kind", "call": "-", "sig": [], "raw": []},
+                             "pyanalyze raised " + crashed, "a diagnostic (or none) per call"))
+            continue
+        reported = {}
+        for e in errs:
+            key = call_line.get(e["lineno"])
+            if key is not None and e["code"] is ErrorCode.incompatible_call:
+                reported[key] = True
+            elif key is not None or e["lineno"] <= ndefs:
+                if e["code"].name not in ("method_first_arg",):
+                    stats["other_codes"][e["code"].name] = stats["other_codes"].get(e["code"].name, 0) + 1
+                if e["code"].name == "internal_error" and key is not None:
+                    i, c = key
+                    failures.append(({"default": chunk[i][0], "def": chunk[i][1], "call": callees[i] + c, "sig": [], "raw": []},
+                                     "internal_error: " + e["message"][:200].replace("\n", " "), "a binding verdict"))
+        ns = {}
+        exec("\n".join(lines[:ndefs]), ns)
+        # extraction: the Signature arg_spec builds must have a default exactly where inspect sees one
+        import inspect as _inspect
+
+        I = _impl()
+        for i, (d, h, wrapper) in enumerate(chunk):
+            if wrapper != "def":
+                continue
+            fobj = ns[f"f{i}"]
+            want = [(p.name, int(p.kind), p.default is not _inspect.Parameter.empty) for p in _inspect.signature(fobj).parameters.values()]
+            try:
+                sg = I["ck"].arg_spec_cache.get_argspec(fobj)
+                got = [(p.name, p.kind.value, p.default is not None) for p in sg.parameters.values()] if isinstance(sg, I["S"].Signature) else repr(sg)
+            except Exception as ex:
+                got = "raised " + repr(ex)[:200]
+            if got != want:
+                failures.append(({"default": d, "def": f"def f({h})", "call": "-", "sig": [], "raw": []}, f"signature extracted by arg_spec: {got}", f"the parameters of the def: {want}"))
+        for (i, c) in call_line.values():
+            d, h, wrapper = chunk[i]
+            stats["calls"] += 1
+            acc = (i, c) not in reported
+            stats["accepted"] += int(acc)
+            try:
+                eval(callees[i] + c, ns)
+                py = True
+            except TypeError:
+                py = False
+            if acc != py:
+                hdr = {"def": f"def f({h})", "method": f"def m(self, {h})", "init": f"def __init__(self, {h})"}[wrapper]
+                failures.append(({"default": d, "def": hdr, "call": callees[i].rstrip("0123456789") + c, "sig": [], "raw": []},
+                                 "accepted" if acc else "rejected (incompatible_call)", "CPython " + ("binds the call" if py else "raises TypeError")))
+    return failures, stats
